@@ -8,6 +8,10 @@ s = open(sys.argv[1], errors='replace').read()
 m = re.search(r'^(panic: .*|fatal error: .*)$', s, re.M)
 if not m:
     sys.exit(0)
+if 'NOTE harness watchdog fired' in s[:m.start()]:
+    # a call was abandoned by the harness before the crash: the crash may be that abandoned call
+    # running into what the harness tore down afterwards - it decides nothing
+    print('harness'); sys.exit(0)
 rest = s[m.end():]
 g = re.search(r'^goroutine \d+ \[[^\]]*\]:\n', rest, re.M)
 if not g:
